@@ -84,11 +84,13 @@ CHECKS = {
              text='For a symbolic whole-metre distance in [20 m, 400 km], per table x gender (x sampled ages for the factor): the real '
                   'calculate_factor / world_best never raise; when two rows adjacent in the table scan bracket the distance, the factor lies '
                   'between their factors and the open best between their bests and is increasing inside the bracket (z3 LRA/NRA over the '
-                  'distance, certified float error); both table ends use the end row. A few float-comparison error-zone paths of world_best '
-                  '(distance exactly on a tabulated one) stay undecided and are covered by the stand-in on the real code: level other.',
+                  'distance, certified float error); both table ends use the end row; the contract of get_distance on the road spellings '
+                  'N[.dd]K / N[.dd]M with symbolic digits (whole metres, at most one short) carries these clauses to every spelling. '
+                  'No undecided path on this tree (error-zone comparisons are decided by evaluating both sides at the single input in the zone). '
+                  'Level other: ages are sampled.',
              note=_TB + ' get_distance of the queried code by contract (symbolic distance); ages sampled {30, 47.5, 80, 100}; '
                   'reading of "nearest shorter/longer" = rows adjacent in the table scan that bracket the distance column.',
-             technique='contract-based deductive verification (symbolic execution with float proxy, path-sensitive bounds -> LRA/NRA -> z3) + bounded stand-in for undecided paths'),
+             technique='contract-based deductive verification (symbolic execution with float proxy, path-sensitive bounds -> LRA/NRA -> z3; callee contract of get_distance on shape-typed spellings) + bounded stand-in as second line'),
  'C02': dict(category='proof',
              text='Per public method, per competition state, N in {1,2} athletes (N=3 for the richest cases; all of N=3 in the thorough tier), on '
                   'a symbolic pre-state of REAL objects with proxy fields (cards and heights of unbounded symbolic length) satisfying the '
@@ -114,13 +116,14 @@ CHECKS = {
              text='Symbolic: the five helper normalisers on shape-typed strings of their pattern group (every digit content, every whitespace '
                   'character): value preserved, canonical result language, idempotent (z3). Bounded: on the language of the general pattern '
                   'enumerated from its syntax tree (108 k codes) and each code\'s case/space/suffix/trailing-zero variants: normal form accepted, '
-                  'whitespace-free, stable, same families, equal across variants; near-miss strings refused with ValueError. One known finding '
+                  'whitespace-free, stable, same families, equal across variants; near-miss strings refused with ValueError, also after their accepted '
+                  'twin was normalised; frame obligation: no write to shared state in the call graph (a memo keyed on the whole argument is accepted). One known finding '
                   '(timed family patterns disagree on spelling).',
              note=_TB + ' The language part is enumeration (bounded in repeat counts), labelled so.',
              technique='contract-based deductive verification of the helpers (symbolic strings -> LIA -> z3) + run-time contracts on the enumerated pattern language (bounded)'),
  'C10': dict(category='other',
              text='Deductive: regular-language inclusions over all strings (z3): the classifier chain of event_code_to_kind covers the accepted '
-                  'language; every accepted field code has a position in FIELD_SORT_ORDER. Bounded: run-time contracts of the seven functions on '
+                  'language; every accepted field code has a position in FIELD_SORT_ORDER; frame obligations (no shared writes) for the seven functions. Bounded: run-time contracts of the seven functions on '
                   'the enumerated language (no exception, key shape, group by family, distance component, text key order, sorter, relay distance).',
              note=_TB + ' Readings: relays ordered by leg distance; SC/SH/LH and NNNNSC sort with the hurdles.',
              technique='regular-language obligations (z3) generated from the imported patterns/lists + run-time contracts on the enumerated pattern language (bounded)'),
@@ -128,8 +131,11 @@ CHECKS = {
              text='Symbolic: for disciplines covering every branch and every admissible-text shape (1-3 colon fields, 0-3 decimals, dot/comma/'
                   'semicolon) with symbolic digits: only the supplied error class escapes; returned text has seconds/minutes below 60; its duration '
                   'keeps the speed within the documented limits; field marks two decimals below record x ulpc; multi scores < 10000; re-validation '
-                  'returns the text unchanged (z3, float proxy). Bounded: run-time contract on the real function over codes from the whole accepted '
-                  'language x a text grammar x gender x precision x custom error class. One known finding (prec=0 sprint minute text).',
+                  'is ACCEPTED and returns the text unchanged (z3, float proxy), with the default precision and on cheap shapes with prec=0 (all '
+                  'precisions in the thorough tier); the clause that applies to a code is taken from the event-code families, not from the '
+                  'validator\'s own membership tests; frame obligation (no shared writes). Bounded: run-time contract on the real function over codes from the whole accepted '
+                  'language x a text grammar x gender x precision x custom error class + a directed boundary grid. Two known findings (prec=0 texts '
+                  'that the reading heuristics re-interpret).',
              note=_TB + ' Text shapes bounded (quick tier trims the longest shapes, thorough runs all); speed limits with 0.01 m/s tolerance.',
              technique='contract-based deductive verification (symbolic execution on shape-typed texts + float proxy -> LIA/LRA -> z3) + run-time contract stand-in'),
  'C16': dict(category='other',
